@@ -33,6 +33,7 @@ inductive Val where
   | str (s : String)
   | circ (c : Circ)
   | list (l : List Val)
+  | dict (l : List (Int × Val))       -- a dict with integer keys
 deriving Inhabited
 
 /-- Python truthiness of the value kinds the harness stores -/
@@ -43,6 +44,13 @@ def Val.truthy : Val → Bool
   | .str s => s != ""
   | .circ _ => true
   | .list l => !l.isEmpty
+  | .dict l => !l.isEmpty
+
+/-- `v == i` for an integer `i` -/
+def Val.eqInt : Val → Int → Bool
+  | .int j, i => j == i
+  | .rat r, i => r == (i : Rat)
+  | _, _ => false
 
 def Val.ofNats (l : List Nat) : Val := .list (l.map (fun n => .int (Int.ofNat n)))
 def Val.ofBool (b : Bool) : Val := .int (if b then 1 else 0)
@@ -59,6 +67,7 @@ def Dict.del (d : Dict) (k : String) : Dict := d.filter (fun e => e.1 != k)
 /-- `MachineModel`: `coupling_graph` as the normalised edge set the constructor stores -/
 structure MModel where
   n : Nat
+  gn : Nat                     -- `coupling_graph.num_qudits` (the constructor may infer less than `n`)
   edges : List (Nat × Nat)
   gates : List Nat
   radixes : List Nat
@@ -102,7 +111,7 @@ structure PData where
 /-- `MachineModel(n)` with the all-to-all default graph; the default gate set is abstracted to the
 empty list (it is always overwritten before it can be observed: see `blockData`) -/
 def MModel.default (radixes : List Nat) : MModel :=
-  ⟨radixes.length, (Graph.allToAllRaw radixes.length).map Graph.norm, [], radixes⟩
+  ⟨radixes.length, radixes.length, (Graph.allToAllRaw radixes.length).map Graph.norm, [], radixes⟩
 
 /-- `PassData(circuit)` -/
 def PData.init (c : Circ) : PData :=
@@ -112,7 +121,7 @@ def PData.init (c : Circ) : PData :=
 
 /-- an object none of whose attributes has been assigned (stands for "not copied") -/
 def PData.blank : PData :=
-  { target := .named 0 0, error := 0, model := ⟨0, [], [], []⟩, placement := [],
+  { target := .named 0 0, error := 0, model := ⟨0, 0, [], [], []⟩, placement := [],
     initialMapping := [], finalMapping := [], data := [], seed := none }
 
 /-- `self.become(other)` where the assignments present in the source are those of `fs`
@@ -141,16 +150,22 @@ def PData.setTarget (d : PData) (k n : Nat) : PData :=
 
 /-- `data.connectivity`: `model.coupling_graph.get_subgraph(placement)`; `none` = raises -/
 def PData.connectivity (d : PData) : Option Graph.G :=
-  (Graph.G.mk d.model.n d.model.edges).subgraph d.placement none
+  (Graph.G.mk d.model.gn d.model.edges).subgraph d.placement none
 
 def encNats (l : List Nat) : Val := Val.ofNats l
+/-- sets and dicts are recorded in sorted order (their Python iteration order is not compared) -/
+def sortPairs (l : List (Nat × Nat)) : List (Nat × Nat) := l.foldr insertPt []
+def insertKey (x : String × Val) : Dict → Dict
+  | [] => [x]
+  | y :: ys => if x.1 ≤ y.1 then x :: y :: ys else y :: insertKey x ys
+def sortDict (d : Dict) : Dict := d.foldr insertKey []
 def encModel (m : MModel) : Val :=
-  .list [.int m.n, .list (m.edges.map (fun e => .list [.int e.1, .int e.2])), encNats m.gates,
-    encNats m.radixes]
+  .list [.int m.n, .int m.gn, .list ((sortPairs m.edges).map (fun e => .list [.int e.1, .int e.2])),
+    encNats (sortNat m.gates), encNats m.radixes]
 def encTarget : Target → Val
   | .ofCirc c => .list [.str "circ", .circ c]
   | .named k n => .list [.str "named", .int k, .int n]
-def encDict (d : Dict) : Val := .list (d.map (fun e => .list [.str e.1, e.2]))
+def encDict (d : Dict) : Val := .list ((sortDict d).map (fun e => .list [.str e.1, e.2]))
 /-- a PassData as a value (block data recorded under `ForEachBlockPass_data`) -/
 def encPData (d : PData) : Val :=
   .list [.str "passdata", encTarget d.target, .rat d.error, encModel d.model, encNats d.placement,
@@ -399,31 +414,41 @@ def subModel (d : PData) (c : Circ) (o : Op) : Option MModel :=
   | some g =>
     match g.subgraph o.loc (some o.loc.zipIdx) with
     | none => none
-    | some sg => some ⟨o.loc.length, sg.edges, d.model.gates, o.loc.map (c.radixes.getD · 0)⟩
+    | some sg => some ⟨o.loc.length, sg.n, sg.edges, d.model.gates, o.loc.map (c.radixes.getD · 0)⟩
 
-/-- `data[key][i]` for a block-specific pass-down value (a dict with integer keys, encoded as a
-list of `[i, v]` pairs) -/
-def specificLookup (v : Val) (i : Nat) : Option Val :=
+/-- `i in data[key]` and then `data[key][i]` for a block-specific pass-down value: `none` when
+`i in v` is false; raises where Python does (`in` on a non-container, index past a list's end) -/
+def specificLookup (v : Val) (i : Nat) : Except Err (Option Val) :=
   match v with
-  | .list l => l.findSome? (fun e => match e with
-      | .list [.int j, x] => if j == (i : Int) then some x else none
-      | _ => none)
-  | _ => none
+  | .dict l => .ok ((l.find? (fun e => e.1 == (i : Int))).map (·.2))
+  | .list l =>
+    if l.any (fun x => x.eqInt i) then
+      match l[i]? with
+      | some x => .ok (some x)
+      | none => .error .index
+    else .ok none
+  | _ => .error .type
 
 def blockData (d : PData) (i cycle : Nat) (o : Op) (sub : Circ) (sm : MModel) (calcErr : Bool) :
-    PData :=
+    Except Err PData :=
   let base := { PData.init sub with model := sm, seed := d.seed }
-  let d0 : Dict := [("subnumbering", .list (o.loc.zipIdx.map (fun (q, j) => .list [.int q, .int j]))),
+  let d0 : Dict := [("subnumbering", .dict ((sortPairs o.loc.zipIdx).map (fun (q, j) => ((q : Int), .int j)))),
                     ("point", .list [.int cycle, .int o.head]),
                     (calcKey, Val.ofBool calcErr)]
-  let d1 := d.data.foldl (fun (acc : Dict) (e : String × Val) =>
-    if e.1.startsWith passDownPrefix then acc.put e.1 e.2
-    else if e.1.startsWith passDownSpecificPrefix then
-      match specificLookup e.2 i with
-      | some v => acc.put e.1 v
-      | none => acc
-    else acc) d0
-  { base with data := d1 }
+  let d1 := d.data.foldl (fun (acc : Except Err Dict) (e : String × Val) =>
+    match acc with
+    | .error err => .error err
+    | .ok acc =>
+      if e.1.startsWith passDownPrefix then .ok (acc.put e.1 e.2)
+      else if e.1.startsWith passDownSpecificPrefix then
+        match specificLookup e.2 i with
+        | .error err => .error err
+        | .ok (some v) => .ok (acc.put e.1 v)
+        | .ok none => .ok acc
+      else .ok acc) (.ok d0)
+  match d1 with
+  | .error err => .error err
+  | .ok d1 => .ok { base with data := d1 }
 
 /-- zero every parameter: the structure that identifies a circuit gate -/
 def zeroParams (c : Circ) : Circ :=
@@ -512,6 +537,20 @@ def firstRaised : List Res → Option Err
 
 def markMay (on : Bool) (tr : List Ev) : List Ev := if on then tr.map (fun e => { e with may := true }) else tr
 
+/-- index of the first job (among those awaited, `idxs`) that raised -/
+def firstRaisedIdx (rs : List Res) (idxs : List Nat) : Option Nat :=
+  (List.range rs.length).find? (fun i => idxs.contains i &&
+    match rs[i]? with
+    | some r => r.out != .ok
+    | none => false)
+
+/-- the traces of the jobs of one `map`: jobs not awaited, and jobs after the first one that raised
+(the client fails as soon as that error arrives), may or may not have run -/
+def jobTraces (rs : List Res) (idxs : List Nat) : List Ev :=
+  let bad := firstRaisedIdx rs idxs
+  (rs.zipIdx.map (fun (r, i) =>
+    markMay (!idxs.contains i || (match bad with | some j => decide (j < i) | none => false)) r.trace)).flatten
+
 structure BlockJob where
   idx : Nat
   cycle : Nat
@@ -576,21 +615,25 @@ def exec (env : Env) : Nat → Tree → World → St → Option Res
             else some { r with w := w',
                                st := ⟨oldCirc, r.st.data.becomeWith env.becomeFields oldData⟩ }
     | .par ws lt pickFirst =>
-      match mapM' (fun w t => subDoWork (exec env fuel) t w s) w ws with
-      | none => none
-      | some (rs, w1) =>
-        let arrived : Option (List Nat × World) :=
-          if pickFirst then
-            match w1.arrivals with
-            | a :: rest => some (a, { w1 with arrivals := rest })
-            | [] => none
-          else some (List.range rs.length, w1)
-        match arrived with
-        | none => some (Res.fail [] s w1 .runtime)
-        | some (idxs, w2) =>
-          let tr := (rs.zipIdx.map (fun (r, i) => markMay (!idxs.contains i) r.trace)).flatten
-          let chosen := idxs.filterMap (fun i => rs[i]?)
-          match firstRaised chosen with
+      -- with `pick_first` only the branches of the first arrival batch are awaited; the others are
+      -- cancelled and their results never looked at (they are not run by the model)
+      let arrived : Option (List Nat × World) :=
+        if pickFirst then
+          match w.arrivals with
+          | a :: rest => some (a, { w with arrivals := rest })
+          | [] => none
+        else some (List.range ws.length, w)
+      match arrived with
+      | none => some (Res.fail [] s w .runtime)
+      | some (idxs, w0) =>
+        let jobs := ws.zipIdx.filter (fun (_, i) => idxs.contains i)
+        match mapM' (fun w (j : Tree × Nat) => subDoWork (exec env fuel) j.1 w s) w0 jobs with
+        | none => none
+        | some (rs, w2) =>
+          let tr := jobTraces rs (List.range rs.length)
+          -- results in arrival order
+          let chosen := idxs.filterMap (fun i => ((jobs.zip rs).find? (fun jr => jr.1.2 == i)).map (·.2))
+          match firstRaised rs with
           | some e => some (Res.fail tr s w2 e)
           | none =>
             match chosen with
@@ -617,18 +660,21 @@ def exec (env : Env) : Nat → Tree → World → St → Option Res
         some ⟨[], { s0 with data := appendRec s0.data (.list []) }, w, .ok⟩
       else
         -- preprocess
-        let jobs : Option (List BlockJob) := blocks.zipIdx.mapM (fun ((cycle, o), i) =>
+        let jobs : Except Err (List BlockJob) := blocks.zipIdx.mapM (fun ((cycle, o), i) =>
           let sub := subCircuit w.blocks o
           match subModel s0.data s0.circ o with
-          | none => none
-          | some sm => some ⟨i, cycle, o, sub, blockData s0.data i cycle o sub sm cfg.calcErr⟩)
+          | none => .error .value
+          | some sm =>
+            match blockData s0.data i cycle o sub sm cfg.calcErr with
+            | .error e => .error e
+            | .ok bd => .ok ⟨i, cycle, o, sub, bd⟩)
         match jobs with
-        | none => some (Res.fail [] s0 w .value)
-        | some jobs =>
+        | .error e => some (Res.fail [] s0 w e)
+        | .ok jobs =>
           match mapM' (fun w (j : BlockJob) => subDoWork (exec env fuel) body w ⟨j.sub, j.bd⟩) w jobs with
           | none => none
           | some (rs, w1) =>
-            let tr := (rs.map (·.trace)).flatten
+            let tr := jobTraces rs (List.range rs.length)
             match firstRaised rs with
             | some e => some (Res.fail tr s0 w1 e)
             | none =>
